@@ -188,6 +188,24 @@ pub fn dispatch(f: &[&str]) -> Result<String, String> {
                 o => Err(format!("fmt {o}")),
             }
         }
+        // CNV <in-fmt> <out-fmt> <prefix?> <s> : zerv render
+        "CNV" => {
+            let prefix = opt_str(f[3])?;
+            let s = unhex(f[4])?;
+            let args = zerv::cli::render::RenderArgs {
+                version: s,
+                input_format: f[1].to_string(),
+                output: zerv::cli::common::args::OutputConfig {
+                    output_format: f[2].to_string(),
+                    output_template: None,
+                    output_prefix: prefix,
+                },
+            };
+            match zerv::cli::render::run_render(args) {
+                Ok(t) => Ok(format!("OK {}", hex(&t))),
+                Err(_) => Ok("ERR".into()),
+            }
+        }
         // TS <pattern> <u64> : resolve_timestamp
         "TS" => {
             let p = unhex(f[1])?;
